@@ -69,7 +69,9 @@ def getattr(I, st, v, name):
                 yield st, e.cls
                 return
             if name == "__dict__":
-                yield st, st.alloc(DictE(dict(e.attrs)))
+                d = DictE()
+                d.owner = v
+                yield st, st.alloc(d)
                 return
             m, where = I.class_lookup(e.cls, name)
             from .values import PropertyVal
